@@ -43,7 +43,7 @@ theorem creditVault_eff {s s' : St} {v r0 : Nat} {a : Int} (h : VWF s) (hv : s.v
       simp only [vsum_eq]
       rw [vsumC_upd _ h.vnodup (h.vdom v r0 hv) hv]
       by_cases e : r = r0
-      · simp [e]
+      · simp [e]; omega
       · simp [e]
     · intro w; simp [upd]
   · cases hs
@@ -99,7 +99,7 @@ theorem payLocks_eff {s s' : St} {ls : List Lock} {success : Bool} {req col req'
     rename_i s1 hc
     have hv : s.vres l.vault = some XRD := hx l.vault (by simp)
     obtain ⟨f1, l1, b1, _, v1, _⟩ := creditVault_eff h hv hc
-    generalize hamt : (if (l.contingent && !success) = true then (0 : Int) else min l.amt req) = amount at hs hc v1
+    generalize payAmount success l req = amount at hs hc v1
     have f1' : Frame s (emit s1 (.payFee l.vault amount)) := ⟨f1.vaults, f1.vres, f1.res, f1.supply, f1.live, f1.bkt, f1.minted, f1.idx⟩
     have hx' : XrdVaults (emit s1 (.payFee l.vault amount)) (t.map (·.vault)) := by
       intro w hw
@@ -157,6 +157,7 @@ theorem finalize_eff {s s' : St} {f : Fin} {success : Bool} (h : VWF s) (hl : Xr
   -- the rewards deposit
   have key : Frame s2 s4 ∧ s4.locks = s2.locks ∧ s4.burned = s2.burned ∧
       (∀ r, vsum s4 r = vsum s2 r + (if r = XRD then f.toProposer + f.toValidators else 0)) := by
+    unfold payRewards at h3
     split at h3
     · split at h3; · cases h3
       split at h3; · cases h3
@@ -180,25 +181,25 @@ theorem finalize_eff {s s' : St} {f : Fin} {success : Bool} (h : VWF s) (hl : Xr
   have f123 := f12.trans f3
   have hb := hf.burn
   subst hs
+  have hv4 : ∀ r, vsum s4 r = vsum s r + (if r = XRD then sumLocks s.locks - f.toBurn else 0) := by
+    intro r
+    rw [v3 r, v2 r, v1 r, hsl]
+    by_cases e : r = XRD
+    · simp [e]; omega
+    · simp [e]
+  have hbb : s4.burned = s.burned := b3.trans (b2.trans b1)
+  unfold burnFee
   refine ⟨?_, rfl, ?_, ?_⟩
   · split
     · exact ⟨f123.vaults, f123.vres, f123.res, f123.supply, f123.live, f123.bkt, f123.minted, f123.idx⟩
     · exact ⟨f123.vaults, f123.vres, f123.res, f123.supply, f123.live, f123.bkt, f123.minted, f123.idx⟩
   · intro r
-    have e1 : ∀ (t : St), vsum { t with locks := [] } r = vsum t r := fun _ => rfl
-    have : vsum s4 r = vsum s r + (if r = XRD then sumLocks s.locks - f.toBurn else 0) := by
-      rw [v3 r, v2 r, v1 r, hsl]
-      by_cases e : r = XRD
-      · simp [e]; omega
-      · simp [e]
     split
-    · exact this
-    · exact this
+    · exact hv4 r
+    · exact hv4 r
   · intro r
-    have hbb : s4.burned = s.burned := b3.trans (b2.trans b1)
     split
-    · rename_i hpos
-      simp only [emit, upd]
+    · simp only [emit, upd]
       by_cases e : r = XRD
       · subst e; simp [hbb]
       · simp [e, hbb]
